@@ -9,6 +9,7 @@ Helper lemmas for L6 `DtRes` (used by `RTV/Props/C06.lean`, `RTV/Props/C07.lean`
 * `Clock` (a written digit clock time) and `matchToTime_clock`, `resolveTime_clock`
 * dates: `Decodes` (what a layout's groups decode to), `matchToDate_of`, `resolveDate_valid`, `resolveDate_invalid`,
   two-digit-year pivot lemmas
+* designators through the `suffix` group: `adjustBySuffix_plain`, `resolveTime_designator`
 * `<date> at <time>`: `merge_clock`, `allStrToPm_one` (`all_str_to_pm` on `<prefix>Thh<suffix>`),
   `dtRes_datetime_plain/ampm`, `resolveDateAtTime_clock`
 -/
@@ -801,5 +802,111 @@ theorem resolveDateAtTime_clock (u : Uni) (ha : u.Ascii) (dcfg : DateCfg) (hmax 
     exact dtRes_datetime_ampm u ha c w60 y mo d _ (by omega) (by omega) (by omega) (by omega) (by omega)
   · simp only [ne_eq, not_true_eq_false, and_false, if_false]
     exact dtRes_datetime_plain u _ y mo d _ c.m c.s (by omega) (by omega)
+
+
+/-! ### am / pm designators that arrive through the `suffix` group (`adjust_by_suffix`) -/
+
+/-- the groups of a digit clock time followed by a designator phrase captured by the `suffix` group -/
+def Clock.groupsSfx (c : Clock) (sfx : Str) : TimeGroups :=
+  { hour := c.hs, min := (c.ms.map (·.1)).getD [], sec := (c.ss.map (·.1)).getD [], sfx := sfx }
+
+theorem decode_clock_sfx (u : Uni) (cfg : TimeCfg) (c : Clock) (sfx : Str) (wf : c.WF u)
+    (hz : cfg.zeroHourIsNone = false ∨ 0 < c.h) :
+    decodeFields u cfg (c.groupsSfx sfx) =
+      .ok (some { hour := c.h, minute := c.m, second := c.s, hasMinute := c.ms.isSome, hasSeconds := c.ss.isSome }) := by
+  have := decode_clock u cfg c false false wf hz
+  simpa [decodeFields, Clock.groups, Clock.groupsSfx] using this
+
+/-- a plain am / pm designator: the suffix regex matches the whole suffix, it is not `o'clock`, and neither the lunch
+nor the night rule applies -/
+structure PlainDesignator (si : SuffixInfo) (pm : Bool) : Prop where
+  full : si.full = true
+  noOclock : si.oclock = []
+  am : si.am.isEmpty = pm
+  pmg : si.pm.isEmpty = !pm
+  noLunch : si.lunch = false
+  noNight : si.night = false
+
+theorem adjustBySuffix_plain (st : SuffixStyle) (si : SuffixInfo) (pm : Bool) (hd : PlainDesignator si pm)
+    (hst : st.simple = true ∨ st.elsePm = true ∨ pm = false) (h : Nat) (h1 : 1 ≤ h) (h12 : h ≤ 12) (m : Int) (hM : Bool) :
+    ∃ hasAm, adjustBySuffixG st si { hour := h, minute := m, hasMinute := hM } =
+      { hour := ((h % 12 + if pm then 12 else 0 : Nat) : Int), minute := m, hasMinute := hM, hasAm := hasAm, hasPm := pm } ∧
+      (hasAm = true ∨ pm = true ∨ h = 12) := by
+  obtain ⟨f, o, a, p, l, n⟩ := hd
+  cases pm
+  · -- am
+    simp only [Bool.not_false] at p
+    skip
+    by_cases h12' : h = 12
+    · subst h12'
+      refine ⟨st.simple, ?_, Or.inr (Or.inr rfl)⟩
+      cases hs : st.simple <;> simp [adjustBySuffixG, f, o, a, p, l, n, hs]
+    · refine ⟨true, ?_, Or.inl rfl⟩
+      have e : h % 12 = h := by omega
+      have lt : ¬ ((h : Int) ≥ 12) := by omega
+      have lt' : ¬ (12 ≤ h) := by omega
+      cases hs : st.simple <;> simp [adjustBySuffixG, f, o, a, p, l, n, hs, lt, lt', e] <;> omega
+  · -- pm
+    simp only [Bool.not_true] at p
+    skip
+    refine ⟨false, ?_, Or.inr (Or.inl rfl)⟩
+    have hs' : st.simple = true ∨ st.elsePm = true := by
+      rcases hst with h | h | h
+      · exact Or.inl h
+      · exact Or.inr h
+      · exact absurd h (by simp)
+    by_cases h12' : h = 12
+    · subst h12'
+      cases hs : st.simple
+      · have he : st.elsePm = true := by rcases hs' with h | h; (· simp [hs] at h); exact h
+        simp [adjustBySuffixG, f, o, a, p, l, n, hs, he]
+      · simp [adjustBySuffixG, f, o, a, p, l, n, hs]
+    · have e : h % 12 = h := by omega
+      have lt : ((h : Int) < 12) := by omega
+      have lt' : (h < 12) := by omega
+      cases hs : st.simple
+      · have he : st.elsePm = true := by rcases hs' with h | h; (· simp [hs] at h); exact h
+        simp [adjustBySuffixG, f, o, a, p, l, n, hs, he, lt, lt', e]
+        omega
+      · simp [adjustBySuffixG, f, o, a, p, l, n, hs, lt, lt', e]
+        omega
+
+
+theorem descAdjust_sfx (c : Clock) (sfx : Str) (x : Int) : descAdjust (c.groupsSfx sfx) x = (x, false, false) := by
+  simp [descAdjust, Clock.groupsSfx]
+
+/-- a digit clock time `h[:mm[:ss]]`, 1 ≤ h ≤ 12, followed by a plain am / pm designator phrase that the culture's
+`adjust_by_suffix` handles: exactly one value, `h am ↦ h mod 12`, `h pm ↦ h mod 12 + 12` — provided the suffix style
+sets `has_pm` for a plain pm designator (`simple`, or the closing `else` is there); am designators need no proviso. -/
+theorem resolveTime_designator (u : Uni) (ha : u.Ascii) (cfg : TimeCfg) (st : SuffixStyle) (si : SuffixInfo) (pm : Bool)
+    (hd : PlainDesignator si pm) (hst : st.simple = true ∨ st.elsePm = true ∨ pm = false)
+    (hcfg : ∀ s a, cfg.adjustBySuffix s a = .ok (adjustBySuffixG st si a))
+    (c : Clock) (wf : c.WF u) (h1 : 1 ≤ c.h) (h12 : c.h ≤ 12) (sfx : Str) (hsfx : blank u sfx = false)
+    (ref : DT) (hv : ref.date.valid = true) :
+    resolveTime u cfg (c.groupsSfx sfx) ref = .ok (some [c.value (c.h % 12 + if pm then 12 else 0)]) := by
+  have w60 := wf_m60 u c wf
+  obtain ⟨hasAm, hadj, hflag⟩ := adjustBySuffix_plain st si pm hd hst c.h h1 h12 c.m c.ms.isSome
+  have pf : blank u (c.groupsSfx sfx).pfx = true := blank_nil u
+  have sf : blank u (c.groupsSfx sfx).sfx = false := hsfx
+  have hh24 : c.h % 12 + (if pm then 12 else 0) < 24 := by split <;> omega
+  simp only [resolveTime, matchToTime, decode_clock_sfx u cfg c sfx wf (Or.inr (by omega)), descAdjust_sfx, pf, sf, bind,
+    Except.bind, pure, Except.pure, Bool.not_true, Bool.not_false, Bool.false_eq_true, if_false, if_true, hcfg, hadj]
+  rw [assembleTime_ok ref hv _ _ _ _ _ _ _ hh24 w60.1 w60.2]
+  have nc : ¬ (0 < c.h % 12 + (if pm then 12 else 0) ∧ c.h % 12 + (if pm then 12 else 0) ≤ 12 ∧ pm = false ∧ hasAm = false) := by
+    rintro ⟨a, b, rfl, rfl⟩
+    rcases hflag with h | h | h
+    · exact absurd h (by simp)
+    · exact absurd h (by simp)
+    · simp [h] at a
+  simp only [nc, if_false]
+  have := dtRes_time_plain u (c.timex (c.h % 12 + (if pm then 12 else 0))) ref.y ref.m ref.d
+    (c.h % 12 + (if pm then 12 else 0)) c.m c.s (by omega)
+  have et : (84 :: fmtD 2 ((c.h % 12 + (if pm then 12 else 0) : Nat) : Int)) ++ (if c.ms.isSome then sColon ++ fmtD 2 (c.m : Int) else []) ++
+      (if c.ss.isSome then sColon ++ fmtD 2 (c.s : Int) else []) = c.timex (c.h % 12 + (if pm then 12 else 0)) := by
+    simp only [Clock.timex, Clock.tail, Clock.m, Clock.s]
+    cases c.ms <;> cases c.ss <;> simp
+  rw [et]
+  simpa [Clock.value] using this
+
 
 end RTV.DtRes
